@@ -58,7 +58,15 @@ type ExploreStats struct {
 // onExec is called after every execution with the complete choice list.
 // stop, if non-nil, is polled between executions (time caps).
 func Explore(bound int, run func(ch *Chooser), onExec func(ch *Chooser), stop func() bool) ExploreStats {
+	return ExploreShard(bound, run, onExec, stop, 0, 1)
+}
+
+// ExploreShard is Explore restricted to one shard: the root execution belongs to shard 0 and
+// the k-th subtree below the root (k-th first deviation, in enumeration order) to shard
+// k mod nshards.  The union over all shards is exactly what Explore enumerates.
+func ExploreShard(bound int, run func(ch *Chooser), onExec func(ch *Chooser), stop func() bool, shard, nshards int) ExploreStats {
 	var st ExploreStats
+	sub := 0
 	var rec func(prefix []int, devs int)
 	rec = func(prefix []int, devs int) {
 		if st.Divergence != nil || st.Truncated {
@@ -70,7 +78,6 @@ func Explore(bound int, run func(ch *Chooser), onExec func(ch *Chooser), stop fu
 		}
 		ch := &Chooser{prefix: prefix}
 		run(ch)
-		st.Executions++
 		if ch.err != nil {
 			st.Divergence = ch.err
 			return
@@ -78,12 +85,21 @@ func Explore(bound int, run func(ch *Chooser), onExec func(ch *Chooser), stop fu
 		if len(ch.choices) > st.MaxPoints {
 			st.MaxPoints = len(ch.choices)
 		}
-		onExec(ch)
+		if devs > 0 || shard == 0 {
+			st.Executions++
+			onExec(ch)
+		}
 		if devs >= bound {
 			return
 		}
 		for i := len(prefix); i < len(ch.choices); i++ {
 			for alt := 1; alt < ch.arity[i]; alt++ {
+				if devs == 0 {
+					sub++
+					if (sub-1)%nshards != shard {
+						continue
+					}
+				}
 				np := append(append([]int{}, ch.choices[:i]...), alt)
 				rec(np, devs+1)
 			}
